@@ -1,9 +1,11 @@
-"""C10 - multisig cosigner wallets agree on scripts; exactly m distinct signers suffice (script / signing level).
+"""C10 - multisig cosigner wallets agree on scripts; exactly m distinct signers suffice, through any hand-off.
 
 Real code executed symbolically: the script-building half of Wallet._new_key_multisig (key sort, redeem script via
-Script(script_types=['multisig']), script type per witness type, Address construction arguments) executed on a fake
-wallet up to its first database query; Transaction.sign placement and Input.verify counting for m-of-n are the C02
-obligations (imported here for n <= 4).  Wallet creation, import and broadcast are SQLAlchemy / service code: outside."""
+Script(script_types=['multisig']), script type per witness type, Address construction arguments) on a stand-in wallet up
+to its first database query; Transaction.sign placement and Input.verify counting for m-of-n (the C02 obligations),
+also when signatures lose their key in a dictionary hand-off; Input.__init__ on the scriptSig a cosigner finds in a
+handed-over transaction (threshold kept); Wallet.transaction_import (object and dictionary branch, transaction_create
+recorded) and Wallet.transaction_create with handed-over inputs on a stand-in multisig wallet (symx.sqlmini)."""
 from symx import core, shims, stubs
 from symx.core import SBytes, SInt, s_and, s_or, s_not
 from vtlib.api import Job, kf
@@ -11,10 +13,11 @@ from harness import c02
 
 PROPERTY = 'C10'
 ASSUMPTIONS = ['cosigner public keys are arbitrary 33-byte strings; the wallet object is a stand-in with the attributes _new_key_multisig reads; the method is followed up to its first database query (a sentinel)',
-               'signing / verification obligations: see C02 (ECDSA abstracted)']
-BOUNDS = {'quick': 'n <= 4 cosigner keys in every order, m in 1..n, witness types legacy / p2sh-segwit / segwit, sort_keys True; placement and counting with n <= 3',
+               'signing / verification obligations: see C02 (ECDSA abstracted to token signatures; verify() remembers the key it was tried with on the signature object, as Signature.verify does)',
+               'hand-off jobs: transaction_create is recorded (import job) or runs on the stand-in database of C07 with key lookup / change keys / fee provider stubbed (threshold job)']
+BOUNDS = {'quick': 'n <= 4 cosigner keys in every order, m in 1..n, witness types legacy / p2sh-segwit / segwit, sort_keys True; placement and counting with n <= 3 and <= 3 sign() calls, optionally with a dictionary hand-off after each call; imported input: empty scriptSig or the 0020<32 symbolic bytes> program push, n in {2,3}, every m; import: every lock time, version, input sequence (32 bit), block height, as object and as dictionary; transaction_create with one handed-over input (Input object carrying any threshold 1..3, or tuple), wallet m in 1..3, any value / amount / fee',
           'thorough': 'n <= 5 cosigner keys, placement and counting with n <= 4'}
-OUTSIDE = 'Wallet.create multisig branch, cosigner wallets, transaction_import(_raw), export/import between wallets, broadcast - database and service code'
+OUTSIDE = 'Wallet.create multisig branch and cosigner wallet objects (database writes), transaction_import_raw parsing (C06), broadcast / send refusal, account handling of cosigner wallets, more than one input per handed-over transaction'
 
 
 class _Stop(Exception):
@@ -96,6 +99,12 @@ def h_redeemscript(ex, n):
     ex.check(kw.get('script_type') == want_type and kw.get('witness_type') == wt and kw.get('network') == 'bitcoin', 'address-type-follows-witness-type')
 
 
+def setup_import(ex):
+    import bitcoinlib.wallets as W
+    from harness import c12
+    shims.install(W, int=shims.IntShim, _logger=c12.NullLog())
+
+
 def h_threshold_kept(ex):
     """an input that a cosigner wallet rebuilds from a handed-over (unsigned or partly signed) transaction: the real
     Input.__init__, given the wallet's m as sigs_required and the scriptSig found in the transaction, keeps the
@@ -124,11 +133,128 @@ def h_threshold_kept(ex):
     ex.check(len(inp.keys) == n, 'imported-input-keeps-the-cosigner-keys')
 
 
+_REAL = {}
+
+
+class _Net:
+    name = 'bitcoin'
+
+
+class _RTInput:
+    sequence = 0xfffffffe          # what the importing wallet's transaction_create would choose by itself
+
+
+class _RT:
+    """what the (recorded) transaction_create call hands back to transaction_import"""
+    def __init__(self, fee):
+        # (the importing wallet's own choices, to be overwritten by what was handed over)
+        self.fee, self.locktime, self.version_int, self.block_height, self.txid = fee, -1, -1, -1, None
+        self.inputs = [_RTInput()]
+
+    def verify(self):
+        return True
+
+    def raw(self):
+        return b'\x00' * 100
+
+
+def h_import_forwards_fields(ex):
+    """Wallet.transaction_import(<Transaction object or dictionary>): the rebuilt transaction gets the lock time, version,
+    txid and block data of the one that was handed over, and transaction_create is asked for the same outputs, inputs and
+    fee - so the next cosigner signs the same transaction"""
+    import bitcoinlib.wallets as WL
+    import bitcoinlib.transactions as T
+    form = ex.choose('handed_over_as', ['object', 'dict'])
+    locktime = ex.int('locktime', 0, 2 ** 32 - 1)
+    version = ex.int('version', 1, 2 ** 31 - 1)
+    height = ex.int('block_height', 0, 10 ** 7)
+    sequence = ex.int('input_sequence', 0, 2 ** 32 - 1)
+    if ex.concrete:
+        locktime, version, height, sequence = int(locktime), int(version), int(height), int(sequence)
+    w = WL.Wallet.__new__(WL.Wallet)
+    calls = []
+
+    def spy(output_arr, input_arr=None, **kw):
+        calls.append((output_arr, input_arr, kw))
+        return _RT(1500)
+    w.transaction_create = spy
+    fields = dict(block_height=height, confirmations=3, witness_type='segwit', date=None, txid='ab' * 32, txhash='cd' * 32, locktime=locktime,
+                  block_hash=None, coinbase=False, flag=None, size=250, vsize=150)
+    if form == 'object':
+        t = T.Transaction.__new__(T.Transaction)
+        t.__dict__.update(fields, outputs=['the outputs'], inputs=['the inputs'], fee=1500, network=_Net(), version=b'v', version_int=version, rawtx=b'raw')
+        rt = w.transaction_import(t)
+        ex.check(len(calls) == 1 and calls[0][0] is t.outputs and calls[0][1] is t.inputs and calls[0][2].get('fee') == 1500 and
+                 calls[0][2].get('network') == 'bitcoin', 'import-recreates-with-the-same-outputs-inputs-fee')
+        ex.check(rt.version_int == version, 'import-keeps-version')
+    else:
+        d = dict(fields, inputs=[dict(prev_txid='11' * 32, output_n=0, value=7000, signatures=['aa'], script=b'', address='a1', sequence=sequence)],
+                 outputs=[dict(address='a2', value=5500)], fee=1500, network='bitcoin', version=version, raw='raw')
+        rt = w.transaction_import(d)
+        ok = len(calls) == 1 and calls[0][0] == [('a2', 5500)] and len(calls[0][1]) == 1 and tuple(calls[0][1][0][:2]) == ('11' * 32, 0) and \
+            calls[0][1][0][3] == 7000 and calls[0][1][0][4] == [b'\xaa'] and calls[0][2].get('fee') == 1500
+        ex.check(ok, 'import-recreates-with-the-same-outputs-inputs-fee')
+        ex.check(rt.version_int == version, 'import-keeps-version')
+        ex.check(rt.inputs[0].sequence == sequence, 'dict-import-keeps-input-sequence')
+    ex.check(rt.locktime == locktime, 'import-keeps-locktime')
+    ex.check(rt.block_height == height and rt.txid == 'ab' * 32, 'import-keeps-txid-and-block-data')
+
+
+def h_create_keeps_wallet_threshold(ex):
+    """transaction_create with inputs handed over from another cosigner (Input objects as parsed from raw hex carry
+    sigs_required = 1; tuples carry none): every input of the rebuilt transaction requires the wallet's m signatures"""
+    import bitcoinlib.wallets as WL
+    import bitcoinlib.transactions as T
+    from harness import c07
+    m = ex.choose('wallet_m', [1, 2, 3])
+    carried = ex.choose('threshold_on_the_imported_input', [1, 2, 3])
+    form = ex.choose('input_given_as', ['Input object', 'tuple'])
+    value = ex.lint('value', 10000, c07.MAXV)
+    amount = ex.lint('amount', 1, c07.MAXV)
+    fee = ex.lint('fee', 1000, 10 ** 6)
+    ex.assume(amount + fee <= value)
+    if ex.concrete:
+        value, amount, fee = int(value), int(amount), int(fee)          # (replay: same stand-in wallet, real values, no proxies)
+    utx = c07.mk_utxos(ex, 1)
+    utx[0].value, utx[0].script_type, utx[0].spent = value, 'p2wsh', False
+    w = c07._wallet(ex, utx)
+    w.multisig, w.multisig_n_required, w.sort_keys = True, m, True
+    with shims.unshimmed():
+        keys = [WL.HDKey(bytes([2]) + bytes([0x80 + i]) * 32, witness_type='segwit', multisig=True) for i in range(3)]
+    w._objects_by_key_id = lambda key_id: (keys, utx[0].key)
+    w.get_keys = lambda *a, **k: [c07._ChangeKey(99)]
+    import random as _random
+    shims.install(WL, Service=c07._FakeService, random=_random.Random(7))
+    shims.install(WL.WalletTransaction, signature_hash=lambda self, *a, **k: b'\x00' * 32)
+    seen = []
+    real_add = _REAL.setdefault('add_input', WL.WalletTransaction.add_input)      # (shims stay installed across paths)
+
+    def spy(self, *a, **k):
+        seen.append(k.get('sigs_required'))
+        return real_add(self, *a, **k)
+    shims.install(WL.WalletTransaction, add_input=spy)
+    if form == 'Input object':
+        inp = T.Input(prev_txid=bytes([1]) * 32, output_n=0, keys=keys, script_type='p2sh_multisig', sigs_required=carried, value=value,
+                      witness_type='segwit', network='bitcoin', sort=True)
+    else:
+        inp = (bytes([1]) * 32, 0)
+    try:
+        t = w.transaction_create([(c07.RECIPIENT, amount)], input_arr=[inp], fee=fee, number_of_change_outputs=1)
+    except WL.WalletError:
+        return
+    ex.check(seen == [m], 'rebuilt-input-asks-for-the-wallets-threshold')
+    ex.check(len(t.inputs) == 1 and t.inputs[0].sigs_required == m, 'rebuilt-input-requires-m-signatures')
+
+
 def jobs(tier):
     q = tier == 'quick'
     J = [Job('redeemscript_%d' % n, h_redeemscript, W=40, setup=setup, params=dict(n=n), budget_s=3000) for n in ([1, 2, 3, 4] if q else [1, 2, 3, 4, 5])]
     from harness import c01
     J.append(Job('threshold_kept', h_threshold_kept, W=72, setup=c01.setup_init, budget_s=1500))
+    from harness import c07
+    J.append(Job('import_forwards_fields', h_import_forwards_fields, W=72, setup=setup_import))
+    J.append(Job('create_keeps_wallet_threshold', h_create_keeps_wallet_threshold, W=8, setup=c07.wsetup, budget_s=1500))
     J.append(Job('counting', c02.h_counting, W=40, setup=c02.setup, params=dict(maxn=3 if q else 4), budget_s=3000))
     J.append(Job('placement', c02.h_placement, W=40, setup=c02.setup, params=dict(maxn=3 if q else 4, ncalls=3 if q else 4), budget_s=3000))
+    J.append(Job('placement_handoff', c02.h_placement, W=40, setup=c02.setup, params=dict(maxn=3, ncalls=3, handoff=True), budget_s=3000))
     return J
